@@ -70,7 +70,9 @@ class Tok:
 def decode_op(t):
     sel, p = t
     kind = ('dispatch', 'dispatch', 'dispatch', 'dispatch', 'dispatch', 'dispatch', 'disable', 'disable', 'enable',
-            'enable', 'add', 'add', 'remove')[sel % 13]
+            'enable', 'add', 'add', 'remove', 'spawn')[sel % 14]
+    if kind == 'spawn':
+        return ['spawn', p % 3]
     if kind == 'dispatch':
         return ['dispatch', p]
     if kind in ('add', 'remove'):
@@ -79,7 +81,7 @@ def decode_op(t):
 
 
 def strategy():
-    op = st.tuples(st.integers(0, 12), st.integers(0, 15)).map(decode_op)
+    op = st.tuples(st.integers(0, 13), st.integers(0, 15)).map(decode_op)
     return st.fixed_dictionaries({
         'kind': st.integers(0, 1),
         'handlers': st.lists(st.integers(1, 15), min_size=1, max_size=4),
@@ -104,6 +106,19 @@ def make_handler(run, ix, mask):
     h.ix = ix
     h.evs = set(evs)
     return h
+
+
+class SpawnComp:
+    """component whose on_add is a delivery like any other (World mode): create_entity calls it directly while
+    dispatching is enabled and relays it through the queue while it is disabled"""
+    __events__ = {'on_add': 'on_add'}
+    evs = frozenset(['on_add'])
+
+    def __init__(self, run, ix, tok):
+        self._run, self.ix, self.tok = run, ix, tok
+
+    def on_add(self, entity, world):
+        self._run.on_cb(self, 'on_add', self.tok)
 
 
 class Execution:
@@ -233,7 +248,7 @@ class Execution:
         token = self.next_token
         self.next_token += 1
         self.events_of[token] = ev
-        listeners = [h for h in self.registered if ev in self.handlers[h].evs]
+        listeners = [h for h in self.registered if h < 100 and ev in self.handlers[h].evs]
         if not self.enabled:
             self.queued[token] = {'event': ev, 'must': bool(listeners)}
             if listeners:
@@ -252,8 +267,7 @@ class Execution:
         if len(pending_now) >= 2:
             self.flags['release_of_two_or_more'] += 1
             for t in pending_now:
-                ev = self.queued[t]['event']
-                if sum(1 for h in self.registered if ev in self.handlers[h].evs) >= 2:
+                if len(self.listeners(t)) >= 2:
                     self.flags['release_two_plus_with_two_listeners'] += 1
                     break
         self.enabled = True
@@ -275,35 +289,68 @@ class Execution:
             # already reached every handler registered now are complete, the one being delivered when it
             # stopped is tolerated (0 or 1 further deliveries), the others stay pending
             self.incomplete = [t for t in self.incomplete if t != self.fault_token and any(
-                self.queued[t]['event'] in self.handlers[h].evs and (t, h) not in self.delivered
-                for h in self.registered)]
+                (t, h) not in self.delivered for h in self.listeners(t))]
             return
         # a normally returning enable that leaves dispatching enabled: everything pending must be complete
         for t in self.incomplete:
             ev = self.queued[t]['event']
-            for h in self.registered:
-                if ev in self.handlers[h].evs and (t, h) not in self.delivered and t != self.fault_token:
+            for h in self.listeners(t):
+                if (t, h) not in self.delivered and t != self.fault_token:
                     self.viol('pending_occurrence_not_delivered_before_enable_returned', token=t, event=ev,
                               handler=h)
         self.incomplete = []
 
+    def listeners(self, t):
+        """handler ids that must get occurrence t if it is delivered now"""
+        q = self.queued[t]
+        if q.get('only') is not None:
+            return [q['only']] if q['only'] in self.registered else []
+        return [h for h in self.registered if q['event'] in self.handlers[h].evs]
+
+    def op_spawn(self, n):
+        """World mode: one create_entity call with 1-3 handler components; each on_add is an occurrence of its own"""
+        if not self.case['kind']:
+            return
+        comps = []
+        for _ in range(1 + n % 3):
+            hix = 100 + self.spawned
+            self.spawned += 1
+            token = self.next_token
+            self.next_token += 1
+            self.events_of[token] = 'on_add'
+            comp = SpawnComp(self, hix, Tok(token, 'on_add'))
+            self.handlers[hix] = comp
+            self.registered.add(hix)
+            if not self.enabled:
+                self.queued[token] = {'event': 'on_add', 'must': True, 'only': hix}
+                self.incomplete.append(token)
+            comps.append(comp)
+        self.keep.append(comps)
+        self.flags['spawn'] += 1
+        r = self.guarded(lambda: self.d.create_entity(*comps), 'create_entity')
+        if self.current_exc is not None and r != 'raised':
+            self.viol('injected_exception_swallowed_by_create_entity', injected=repr(self.current_exc))
+
     def op_add(self, hix):
-        hix %= len(self.handlers)
+        hix %= self.nfixed
         self.guarded(lambda: self.d.add_handler(self.handlers[hix]), 'add_handler')
         self.registered.add(hix)
 
     def op_remove(self, hix):
-        hix %= len(self.handlers)
+        hix %= self.nfixed
         self.guarded(lambda: self.d.remove_handler(self.handlers[hix]), 'remove_handler')
         self.registered.discard(hix)
 
     def run(self):
         self.d = desper.World() if self.case['kind'] else desper.EventDispatcher()
-        self.handlers = [make_handler(self, i, m) for i, m in enumerate(self.case['handlers'])]
+        self.handlers = {i: make_handler(self, i, m) for i, m in enumerate(self.case['handlers'])}
+        self.nfixed = len(self.handlers)
+        self.spawned = 0
+        self.keep = []
         self.registered = set()
         self.next_token = 0
         self.events_of = {}
-        for i in range(len(self.handlers)):
+        for i in range(self.nfixed):
             if self.case['reg'] >> i & 1:
                 self.op_add(i)
         ops = self.case['ops'] + [['enable'], ['enable']]
